@@ -1616,11 +1616,15 @@ impl<'a, const C: usize, const R: usize, T: 'a + Copy + std::fmt::Debug> Layout<
                 self.rpt_action = Some(action);
             }
             Src => {
-                let action = &self.src_keys[usize::from(coord.1)];
-                // Risk: infinite recursive resulting in stack overflow.
-                // In practice this is not expected to happen.
-                // The `src_keys` actions are all expected to be `KeyCode` or `NoOp` actions.
-                self.do_action(action, coord, delay, is_oneshot, &mut std::iter::empty());
+                // Coordinates that are not defsrc columns, e.g. the virtual coordinates used by
+                // chords v2, have no defsrc key: do nothing for them instead of indexing past
+                // the end.
+                if let Some(action) = self.src_keys.get(usize::from(coord.1)) {
+                    // Risk: infinite recursive resulting in stack overflow.
+                    // In practice this is not expected to happen.
+                    // The `src_keys` actions are all expected to be `KeyCode` or `NoOp` actions.
+                    self.do_action(action, coord, delay, is_oneshot, &mut std::iter::empty());
+                }
             }
             Trans => {
                 // Transparent action should be resolved to non-transparent one near the top
